@@ -586,10 +586,17 @@ def minkowski_rules(db, chk, cfg, rule="MINK"):
         ok = len(ex) == 1 and len(hu.params) == 2 and canon(db.call_args(ex[0])[0]).split("::")[-1] == "Union" and \
             canon(db.call_args(ex[0])[1]) == hu.params[1]["name"] and len(adds) == 1 and db.callee(adds[0])[0] == "AddSubject" and \
             canon(db.call_args(adds[0])[0]) == hu.params[0]["name"]
+        # ... on a clipper of its own: an engine that outlives the call (static, thread_local, a member) still holds the subjects of
+        # earlier calls unless it is cleared first
+        for x in walk(hu.body):
+            if x.get("kind") == "VarDecl" and "Clipper64" in (qt(x) or "") and (x.get("storageClass") in ("static", "extern") or x.get("tls")):
+                cleared = any(y.get("kind") == "CXXMemberCallExpr" and db.callee(y)[0] == "Clear" and canon(db.member_base(y)) == x.get("name") for y in walk(hu.body))
+                if not cleared:
+                    ok = False
         n += 1
-        chk.instance(rule + ".union", {"function": hu.qual, "obligation": "Execute(ClipType::Union, <its fill rule>) on AddSubject(<its paths>)", "cfg": cfg}, ok=ok)
+        chk.instance(rule + ".union", {"function": hu.qual, "obligation": "Execute(ClipType::Union, <its fill rule>) on AddSubject(<its paths>), on a fresh (or cleared) clipper", "cfg": cfg}, ok=ok)
         if not ok:
-            chk.violation(rule + ".union", hu.qual, "helper", "detail::Union must add its paths as subjects and execute ClipType::Union with the fill rule it was given", hu.where, cfg=cfg)
+            chk.violation(rule + ".union", hu.qual, "helper", "detail::Union must add its paths as subjects to a clipper of its own (or a cleared one) and execute ClipType::Union with the fill rule it was given", hu.where, cfg=cfg)
     # (g) roles: the pattern is always a closed outline, isClosed speaks about the path.  Every call of detail::Minkowski - from the
     # public functions and from itself - must hand the caller's pattern to the pattern slot and the caller's path to the path slot
     # (a swap is only the same region for the sum of two closed outlines: both flags literally true).
